@@ -57,9 +57,12 @@ def lookupText (tbl : List (Nat × String)) (k : Nat) : Option String := (tbl.fi
 
 /-- `_describe_ascq` -/
 def describeAscq (asc ascq : Nat) : String :=
-  if Gen.vendorAscLo ≤ asc ∧ asc ≤ Gen.vendorAscHi then "Vendor specific ASC"
-  else if Gen.vendorAscLo ≤ ascq ∧ ascq ≤ Gen.vendorAscHi then "Vendor specific ASCQ"
-  else (lookupText Gen.senseAscq (asc * 256 + ascq)).getD "Unknown ASC+Q"
+  match lookupText Gen.senseAscq (asc * 256 + ascq) with
+  | some t => t
+  | none =>
+    if Gen.vendorAscLo ≤ asc ∧ asc ≤ Gen.vendorAscHi then "Vendor specific ASC"
+    else if Gen.vendorAscLo ≤ ascq ∧ ascq ≤ Gen.vendorAscHi then "Vendor specific ASCQ"
+    else "Unknown ASC+Q"
 
 /-- `__str__` -/
 def str (e : Err) : Except PyErr String :=
